@@ -335,6 +335,22 @@ def gen_boundary_minimal(rng, path, n):
             {'op': 23, 'id': 5}, {'op': 30, 'mode': 1}, {'op': 23, 'id': 5}]
 
 
+def ro_consistent(ops):
+    """every operation marked as an attempt on a read-only collection really follows a read-only reopen (a shrunk
+    history that lost the reopen is not a candidate)"""
+    ro = False
+    for o in ops:
+        if o['op'] == 30:
+            ro = o.get('mode') == 2
+        elif o['op'] in (40, 50, 60):
+            ro = o['op'] == 60 and o.get('mode') == 2
+        if o.get('ro') and not ro:
+            return False
+        if not o.get('ro') and ro and o['op'] in (20, 21, 22, 10, 11):
+            return False
+    return True
+
+
 def is_big(ops):
     return any(isinstance(o.get(k), P) and (o[k].n or 0) > 300000 for o in ops for k in ('meta', 'vec'))
 
@@ -457,7 +473,8 @@ def spec_check(ops, g):
         if o.get('ro') and c in (20, 21, 22):
             # a write through a collection opened read-only is refused (the mapping faults) and changes nothing
             would = c == 20 or o['id'] in spec
-            if o['id'] not in ignore and f[1] != (2 if would else 1):
+            # refused: by the faulting mapping (2) or, for an update that needs the file to grow, by the error of the growth (1)
+            if o['id'] not in ignore and (f[1] not in ((1, 2) if c == 21 else (2,)) if would else f[1] != 1):
                 return {'op_index': i, 'kind': {20: 'add', 21: 'update', 22: 'remove'}[c],
                         'what': 'a write through a collection opened read-only was answered %s (it must be refused and change nothing)' % f[1:], 'got': f}
             continue
